@@ -46,6 +46,18 @@ def make_hash(cls, rng, raw=None):
         h["s"] = ""
     elif cls == "spaced":
         h["s"] = " ".join(hx[i:i + 2] for i in range(0, 64, 2))
+    elif cls == "prefixed_upper":
+        h["s"] = "0X" + hx
+    elif cls == "lead_ws":
+        h["s"] = rng.choice((" ", "\t", "\n")) + hx
+    elif cls == "trail_ws":
+        h["s"] = hx + rng.choice((" ", "\t", "  "))
+    elif cls == "trail_nl":
+        h["s"] = hx + rng.choice(("\n", "\r\n"))
+    elif cls == "odd_extra0":
+        h["s"] = rng.choice((hx + "0", "0" + hx))
+    elif cls == "nonascii":
+        h["s"] = sa.spell(hx, "nonascii", rng)
     elif cls == "other":
         h["kind"] = "other"
         h["s"] = ""
@@ -69,7 +81,7 @@ def make_iter(cls, rng, mid=None):
          "dec_0": ("str", "0"), "dec_mid": ("str", str(mid)), "dec_max": ("str", "65535"),
          "dec_neg": ("str", "-1"), "dec_over": ("str", "65536"),
          "hex_mid": ("str", "0x%x" % mid), "hex_max": ("str", "0xffff"), "hex_max_upper": ("str", "0xFFFF"),
-         "dec_lead0": ("str", "0" * rng.randint(1, 3) + str(rng.choice((mid, mid, 7, 8, 9, 45, 0)))),
+         "dec_lead0": ("str", "0" * rng.randint(1, 3) + str(rng.choice((mid, mid, 7, 8, 9, 45)))),
          "dec_lead0_max": ("str", "0" * rng.randint(1, 3) + "65535"),
          "hex_pad": ("str", rng.choice(("0x%04x", "0x%04X", "0x%06x")) % rng.choice((mid, 1, 0x2d))),
          "bin": ("str", rng.choice(("0b", "0B")) + bin(rng.choice((0, 1, 5, mid)))[2:]),
@@ -80,8 +92,25 @@ def make_iter(cls, rng, mid=None):
          "none": ("none", 0),
          "junk_alpha": ("str", rng.choice(("abc", "ten", "x", "zero"))),
          "junk_point": ("str", rng.choice(("1.5", "1.0", "12,5", "3/4", "#12"))),
-         "junk_empty": ("str", "")}[cls]
+         "junk_empty": ("str", ""),
+         "hex_mixedcase": ("str", "0x" + sa.spell("%04x" % (mid | 0xA00B), "mixed", rng)),
+         # spellings the property leaves open (spec: FreeIters)
+         "sp_lead_ws": ("str", rng.choice((" ", "\t", "\n", "  ")) + str(mid)),
+         "sp_trail_ws": ("str", str(mid) + rng.choice((" ", "\t", "  "))),
+         "sp_trail_nl": ("str", str(mid) + rng.choice(("\n", "\r\n"))),
+         "sp_inner_ws": ("str", str(mid)[:1] + " " + str(mid)[1:]),
+         "sp_plus": ("str", "+" + str(mid)),
+         "sp_underscore": ("str", str(mid)[:1] + "_" + str(mid)[1:]),
+         "sp_nonascii": ("str", "".join(chr(rng.choice((0x660, 0xFF10)) + int(c)) for c in str(mid))),
+         "sp_neg_zero": ("str", "-0"),
+         "sp_hex_trail_ws": ("str", "0x%x" % mid + rng.choice((" ", "\n", "\t"))),
+         "sp_hex_lead_ws": ("str", " 0x%x" % mid),
+         "sp_hex_underscore": ("str", "0x" + ("%x" % mid)[:1] + "_" + ("%x" % mid)[1:])}[cls]
     it = {"cls": cls, "form": t[0], "val": 0, "s": ""}
+    if cls.startswith("sp_"):
+        it["n"] = 0 if cls == "sp_neg_zero" else mid
+    if cls == "hex_mixedcase":
+        it["n"] = mid | 0xA00B
     if t[0] == "str":
         it["s"] = t[1]
     else:
@@ -93,6 +122,8 @@ def iter_value(it):
     """the integer a well-formed iteration input denotes (harness side, for building fixtures only)"""
     if it["form"] == "int":
         return it["val"]
+    if "n" in it:
+        return it["n"]
     s = it["s"]
     return int(s[2:], 16) if s.startswith("0x") else int(s)
 
@@ -204,37 +235,53 @@ def iter_rec(iin):
     return {"form": iin["form"], "val": iin["val"], "s": iin["s"]}
 
 
-def run_behaviour(ctx, fx, b, tag):
-    """One generated behaviour -> a concrete recipe -> one recorded execution of the real code."""
+def sources(b, rng):
+    """entry paths a behaviour is replayed through: one (seeded) for well-formed bases, every applicable
+    one for single-deviation behaviours (constructor, from_jsonfile, signapp -i for iteration texts)"""
+    e = b["env"]
+    can_signapp = e["m"] == 0 and e["hcls"] == "lower" and e["mut"] in ("none", "iter", "iterspell") \
+        and not e["icls"].startswith(("int_", "float", "bool", "none"))
+    if e["mut"] == "none":
+        if can_signapp and rng.random() < 0.7:
+            return ["signapp"]
+        return [rng.choice(("api", "file"))]
+    return ["api", "file"] + (["signapp"] if can_signapp else [])
+
+
+def run_behaviour(ctx, fx, b, tag, src):
+    """One generated behaviour + entry path -> a concrete recipe -> one recorded execution."""
     rng = ctx.rng
     e = b["env"]
     iin = make_iter(e["icls"], rng)
     m = e["m"]
     desc = {"hcls": e["hcls"], "icls": e["icls"], "m": m, "mut": e["mut"], "at": e["at"], "kind": e["kind"],
-            "tool": e["tool"], "cur": e["cur"], "k": e["k"]}
-    good = e["mut"] == "none"
+            "tool": e["tool"], "cur": e["cur"], "k": e["k"], "src": src}
+    cont = b["built"] == "built" and b["verdict"] == ""       # the model goes on after the build
     recipe = {}
-    if (good or e["mut"] == "iter") and m == 0 and e["hcls"] == "lower" and iin["form"] == "str" \
-            and rng.random() < 0.7:
+    if src == "signapp":
         app = bytes(rng.getrandbits(8) for _ in range(rng.randrange(1, 700)))
         recipe["app"] = app.hex()
         hin = make_hash("lower", rng, raw=__import__("hashlib").sha256(app).digest())
-        src = "signapp"
     else:
         hin = make_hash(e["hcls"], rng)
-        src = rng.choice(("api", "file"))
     h = hin["raw"]
-    n = iter_value(iin) if (good or e["mut"] in ("hash", "sig")) else 1
-    tool = e["tool"] if good else "?"
-    total = m + (1 if tool in ("key", "eth", "manual_ok") else 0)
-    tool_pos = m + 1 if tool in ("key", "eth", "manual_ok") else None
-    k = e["k"] if good and e["cur"] == "below" else 99
+    try:
+        n = iter_value(iin)
+    except ValueError:
+        n = 1
+    if not (isinstance(n, int) and 0 <= n <= 65535) or (not cont and e["mut"] in ("iter", "iterspell")):
+        n = 1
+    tool = e["tool"] if cont else "?"
+    total = b["nsigs"] if cont else m
+    tool_pos = m + 1 if total == m + 1 else None
+    k = e["k"] if cont and e["cur"] == "below" else 99
     desc["total"] = total
-    desc["src"] = src
     signers, auth, thr = plan_exchange(fx, rng, h, n, total, k, tool_pos)
     sigs = [make_sig(signers[p][0], signers[p][1], h, n, rng) for p in range(1, m + 1)]
     if e["mut"] == "sig":
         sigs[e["at"] - 1] = sa.malform(bytes.fromhex(sigs[e["at"] - 1]), e["kind"], rng)
+    elif e["mut"] == "sigspell":
+        sigs[e["at"] - 1] = sa.spell(sigs[e["at"] - 1], e["kind"], rng)
     tools = []
     if tool == "key":
         tools.append({"op": "key", "key": signers[tool_pos][0].raw.hex()})
@@ -244,17 +291,20 @@ def run_behaviour(ctx, fx, b, tag):
     elif tool == "manual_ok":
         key, kind = signers[tool_pos]
         tools.append({"op": "manual", "sig": make_sig(key, kind, h, n, rng)})
+    elif tool == "manual_spell":
+        key, kind = signers[tool_pos] if tool_pos else (fx.key(), "valid")
+        tools.append({"op": "manual", "sig": sa.spell(make_sig(key, kind, h, n, rng), e["kind"], rng)})
     elif tool == "manual_bad":
         s = make_sig(fx.key(), "valid", h, n, rng)
         tools.append({"op": "manual", "sig": sa.malform(bytes.fromhex(s), rng.choice(sa.MALFORMED_KINDS), rng)})
     if e["cur"] == "below" and n > 0:
         cur = rng.randrange(0, n)
-    elif e["cur"] == "?" and good:
+    elif e["cur"] == "?" and cont:
         cur = 0
     else:
         cur = rng.randrange(max(n, 0), 65536) if n < 65536 else 65535
     recipe.update({"src": src, "hash": hash_rec(hin), "iter": iter_rec(iin), "sigs": sigs, "tools": tools,
-                   "roundtrip": good, "device": {"authorizers": [a.hex() for a in auth], "threshold": thr,
+                   "roundtrip": cont, "device": {"authorizers": [a.hex() for a in auth], "threshold": thr,
                                                  "cur": cur},
                    "via": rng.choice(("admin", "dongle"))})
     desc["via"] = recipe["via"]
@@ -266,10 +316,13 @@ def signature(clause, t, ev=None):
     """stable abstract signature: the clause and the classes of the parts it depends on"""
     d = t["desc"]
     if ev is not None and ev.get("k") == "sign":
-        d = dict(d, tool=ev["via"], mut="none")
+        d = dict(d, tool=ev["via"], mut="none", spell=d.get("tool") == "manual_spell")
     if clause == "RefusesMalformed":
         part = {"hash": "hash=%s" % d["hcls"], "iter": "iteration=%s" % d["icls"],
-                "sig": "signature=%s" % d["kind"], "none": "manual-signature"}.get(d.get("mut"), "input")
+                "iterspell": "iteration=%s" % d["icls"],
+                "sig": "signature=%s" % d["kind"], "sigspell": "signature-spelling=%s" % d["kind"],
+                "none": "manual-signature" + ("-spelling=%s" % d["kind"] if d.get("tool") == "manual_spell"
+                                              or d.get("spell") else "")}.get(d.get("mut"), "input")
         return "%s|%s" % (clause, part)
     if clause in ("AcceptsWellFormed", "IterationKept", "HashKept", "MessageText", "Eip191Wrap",
                   "Keccak256Digest", "SignaturesKept"):
@@ -350,10 +403,18 @@ def run_random(ctx, fx, tag):
         at = rng.randrange(m)
         badkind = rng.choice(sa.MALFORMED_KINDS)
         sigs[at] = sa.malform(bytes.fromhex(sigs[at]), badkind, rng)
+    spelled = "?"
+    if m and badkind == "?" and rng.random() < 0.25:
+        at = rng.randrange(m)
+        spelled = rng.choice(sa.SPELLINGS)
+        sigs[at] = sa.spell(sigs[at], spelled, rng)
+        if spelled in ("p0x", "p0X", "split_pair", "odd0", "nonascii"):
+            badkind = spelled
     good = hcls in ("lower", "upper", "mixed") and okiter and badkind == "?"
-    desc = {"hcls": hcls, "icls": iin["cls"], "m": m, "kind": badkind, "tool": "?", "cur": "?",
+    desc = {"hcls": hcls, "icls": iin["cls"], "m": m, "kind": badkind if spelled == "?" else spelled,
+            "tool": "?", "cur": "?",
             "mut": "none" if good else ("hash" if hcls not in ("lower", "upper", "mixed") else
-                                        "iter" if not okiter else "sig"),
+                                        "iter" if not okiter else "sig" if spelled == "?" else "sigspell"),
             "k": None, "src": "random"}
     tools = []
     if good:
@@ -431,7 +492,8 @@ def select(ctx, behaviours, quota):
     for i in order:
         e = behaviours[i]["env"]
         keys = [("h", e["hcls"]), ("i", e["icls"]), ("mut", e["mut"], e["kind"], e["at"]),
-                ("tool", e["tool"], e["m"]), ("k", e["m"], e["k"], e["cur"])]
+                ("tool", e["tool"], e["m"], e["kind"] if e["tool"] == "manual_spell" else ""),
+                ("k", e["m"], e["k"], e["cur"])]
         new = [k for k in keys if k not in seen]
         if new:
             seen.update(new)
@@ -500,6 +562,11 @@ def corruptions(traces):
         e = copy.deepcopy(t["ev"])
         del e[auth_idx(t)[-1]]
         add(t, e, "AllSentBeforeFailing", "last SIGN exchange dropped from a failed authorization")
+    t = first(lambda t: not done(t) and len(auth_idx(t)) >= 2 and t["ev"][-1]["exc"] == "HSM2DongleError")
+    if t:
+        e = copy.deepcopy(t["ev"])
+        e[-1]["exc"] = "ValueError"
+        add(t, e, "DocumentedFailure", "an undocumented exception escapes after the conversation began")
     t = first(lambda t: any(x["k"] == "roundtrip" and len(x["after"]["sigs"]) >= 2 for x in t["ev"]))
     if t:
         e = copy.deepcopy(t["ev"])
@@ -588,6 +655,10 @@ def run(ctx):
         "device side by libsecp256k1 after low-S normalisation",
         "inside a class (hash bytes, mid iterations, keys, DER values) members are seeded samples; "
         "thorough tier covers every iteration 0..65535 once",
+        "hex-valued inputs are replayed in every spelling of spec/SignerAuth.tla (0x/0X prefix, upper/mixed "
+        "case, leading/trailing/inner blanks, trailing newline, split pair, extra 0, non-ASCII digits) at "
+        "every file position, through the constructor, from_jsonfile, signapp manual/key and signapp -i; "
+        "a spelling is either refused at construction/load or sent byte-exact after hex decoding",
         "iteration strings: decimal digits (leading zeros included) and 0x + hex digits are the accepted "
         "forms; 0b/0o/0X literals, junk, negatives, floats, bools are malformed; '+5', ' 5', '1_0', '-0', "
         "blank-separated signature hex and non-canonical DER integers are left open (either answer; if "
@@ -631,16 +702,24 @@ def run(ctx):
     lap("tlc_generate")
     # 3. replay on the real code
     fx = Fixture(ctx.rng)
-    order = select(ctx, behaviours, ctx.pick(700, len(behaviours)))
+    order = select(ctx, behaviours, ctx.pick(800, len(behaviours)))
     traces, drift = [], 0
     for bi in order:
         b = behaviours[bi]
-        t = run_behaviour(ctx, fx, b, "b%d" % bi)
-        hist = [e["k"] for e in t["ev"] if e["k"] != "apdu" or (len(e["apdu"]) > 1 and e["apdu"][1] == 0x51)]
-        if hist != b["hist"]:
-            drift += 1
-            t["drift"] = {"model": b["hist"], "code": hist}
-        traces.append(t)
+        for src in sources(b, ctx.rng):
+            t = run_behaviour(ctx, fx, b, "b%d%s" % (bi, src), src)
+            hist = [e["k"] for e in t["ev"]
+                    if e["k"] != "apdu" or (len(e["apdu"]) > 1 and e["apdu"][1] == 0x51)]
+            if hist != b["hist"]:
+                drift += 1
+                t["drift"] = {"model": b["hist"], "code": hist}
+            traces.append(t)
+    res.coverage["executions_of_model_behaviours"] = len(traces)
+    res.coverage["spellings_replayed"] = {
+        "signature_in_file": sorted({t["desc"]["kind"] for t in traces if t["desc"]["mut"] == "sigspell"}),
+        "signature_manual": sorted({t["desc"]["kind"] for t in traces if t["desc"]["tool"] == "manual_spell"}),
+        "iteration": sorted({t["desc"]["icls"] for t in traces if t["desc"]["mut"] == "iterspell"}),
+        "hash": sorted({t["desc"]["hcls"] for t in traces if t["desc"]["mut"] == "hash"})}
     res.coverage["behaviours_replayed"] = len(order)
     res.coverage["model_drift"] = drift
     lap("replay")
